@@ -769,6 +769,12 @@ func (u *Unit) evalCall(st *State, env *SpecEnv, e *Spec) (Val, error) {
 			return Val{}, err
 		}
 		return u.specLoad(st, pv)
+	case "nlp":
+		as, err := args()
+		if err != nil {
+			return Val{}, err
+		}
+		return intVal(fmt.Sprintf("(nlp %s %s)", as[0].Terms[0], as[1].Terms[0])), nil
 	case "qmarks":
 		as, err := args()
 		if err != nil {
